@@ -2,7 +2,7 @@
    files: the model pipeline (prune + writer + printer) against the bytes of
    the file written by the real run. *)
 From Coq Require Import List NArith ZArith Bool String Ascii PrimFloat.
-From T4V Require Import Base.Str Base.Cases C08.Model.
+From T4V Require Import Base.Str Base.Cases Base.Scalar C08.Model C08.SurfEq.
 From Coq Require Import Uint63.
 Import ListNotations.
 Open Scope string_scope.
@@ -34,13 +34,11 @@ Example U_selftest :
   = " !""#$%&'()*+,-./0123456789:;<=>?@ABCDEFGHIJKLMNOPQRSTUVWXYZ[\]^_`abcdefghijklmnopqrstuvwxyz{|}~".
 Proof. vm_compute. repeat split. Qed.
 
-(* SurfaceT4.__eq__: type, parameters (numeric ==), transform (numpy ==) *)
-Definition payload := (string * list float * option (list float))%type.
+(* SurfaceT4.__eq__: type, parameters (numeric ==), transform (numpy ==): the scalar-generic
+   definition of C08/SurfEq.v at binary64 (at R it is proved symmetric and transitive) *)
+Definition payload := spayload float.
 
-Definition payload_eqb (a b : payload) : bool :=
-  let '(ta, pa, xa) := a in
-  let '(tb, pb, xb) := b in
-  String.eqb ta tb && list_eqb PrimFloat.eqb pa pb && option_eqb (list_eqb PrimFloat.eqb) xa xb.
+Definition payload_eqb : payload -> payload -> bool := spayload_eqb FS.
 
 Definition err_name (e : err) : string :=
   match e with EKey => "KeyError" | EValue => "ValueError" | EFuel => "fuel" end.
